@@ -92,6 +92,7 @@ def gen(rng, tier, i):
         # driver's note "an action was removed" has to survive the error in the inner command
         who = rng.choice(('me', 'b')); st['catch'] += 1; st['leaf'] += 1
         kindb = rng.choice(('err', 'typeerr', 'throw'))
+        cmd('rmx', 1)       # (an action removed for good: the driver's pool of free sentences is not empty for the rest of the run)
         # (other actions removed or objects destructed before: the driver's pool of free sentences is not empty then)
         pre = rng.choice(('rmy,', 'rmy,', 'rmx,rmy,', 'dest c,rmy,', 'move b me,' if who == 'b' else 'rmx,rmy,', 'rmx,dest %s,' % who))     # (the last: the verb function destructs the living it runs for)
         inner = 'cmd do bomb %d %s' % (st['leaf'], kindb) if (who == 'me' and ('rmx' in pre or rng.random() < 0.3)) else 'cmd x'
